@@ -1537,16 +1537,26 @@ Proof.
   intros e. unfold ev_le. cbn beta. lia.
 Qed.
 
+Lemma drop_leading_newlines_Forall (P : lexev -> Prop) evs :
+  Forall P evs -> Forall P (drop_leading_newlines evs).
+Proof.
+  induction evs as [|e r IH]; intros H; cbn [drop_leading_newlines]; [exact H|].
+  inversion H as [|? ? He Hr]; subst. destruct (e_type e); try exact H. apply IH. exact Hr.
+Qed.
+
 Theorem schema_len_no_panic : forall bs, schema_len bs <> VPanic.
 Proof.
   intros bs. unfold schema_len.
   pose proof (schema_scan_no_panic true bs) as Hp.
   pose proof (scan_spans_N true bs) as Hs.
   destruct (scan true bs) as [evs o]. cbn [fst snd] in *.
-  pose proof (length_loop_le (N.of_nat (length bs)) evs 0%N Hs (N.le_0_l _)) as Hl.
-  destruct (length_loop (N.of_nat (length bs)) evs 0) as [raw stopped]. cbn [fst] in Hl.
+  pose proof (length_loop_le (N.of_nat (length bs)) (drop_leading_newlines evs) 0%N
+                (drop_leading_newlines_Forall _ _ Hs) (N.le_0_l _)) as Hl.
+  destruct (length_loop (N.of_nat (length bs)) (drop_leading_newlines evs) 0) as [raw stopped].
+  cbn [fst] in Hl.
   destruct (N.ltb_spec (N.of_nat (length bs)) raw) as [Hlt|_]; [lia|].
-  destruct stopped; [discriminate|]. destruct o; [discriminate|discriminate|exfalso; apply Hp; reflexivity].
+  destruct (N.of_nat (length (trim_blank_rev (frev (firstn (N.to_nat raw) bs)))) =? 0)%N;
+    (destruct stopped; [discriminate|]; destruct o; [discriminate|discriminate|exfalso; apply Hp; reflexivity]).
 Qed.
 
 Lemma trim_blank_rev_spec l :
@@ -1585,21 +1595,43 @@ Proof.
   rewrite Hb in Hn. inversion Hn; subst. exact E2.
 Qed.
 
-(* P4, without positivity (false: see the counterexamples in Props/C14.v): *)
-Theorem schema_len_prefix : forall bs n, schema_len bs = VLen n ->
-  (N.to_nat n <= length bs)%nat /\
-  (forall c, nth_error bs (N.to_nat n - 1) = Some c -> (0 < n)%N -> is_blank c = false).
+(* P4: what Len returns is a prefix length: positive, not longer than the text, not ending in a
+   blank (after the fix c67ddfe a trimmed length of 0 is the error 202) *)
+Theorem schema_len_positive_always : forall bs n, schema_len bs = VLen n -> (0 < n)%N.
 Proof.
   intros bs n. unfold schema_len.
   destruct (scan true bs) as [evs o].
-  destruct (length_loop (N.of_nat (length bs)) evs 0) as [raw stopped].
+  destruct (length_loop (N.of_nat (length bs)) (drop_leading_newlines evs) 0) as [raw stopped].
+  assert (Hk : (if (N.of_nat (length bs) <? raw)%N then VPanic
+                else if (N.of_nat (length (trim_blank_rev (frev (firstn (N.to_nat raw) bs)))) =? 0)%N
+                     then VErr code_empty_schema 0
+                     else VLen (N.of_nat (length (trim_blank_rev (frev (firstn (N.to_nat raw) bs)))))) = VLen n ->
+               (0 < n)%N).
+  { destruct (N.of_nat (length bs) <? raw)%N; [discriminate|].
+    destruct (N.eqb_spec (N.of_nat (length (trim_blank_rev (frev (firstn (N.to_nat raw) bs))))) 0) as [E|E];
+      [discriminate|]. intros H. inversion H; subst. lia. }
+  destruct stopped; [exact Hk|]. destruct o; [exact Hk|discriminate|discriminate].
+Qed.
+
+Theorem schema_len_prefix : forall bs n, schema_len bs = VLen n ->
+  (0 < n)%N /\ (N.to_nat n <= length bs)%nat /\
+  (forall c, nth_error bs (N.to_nat n - 1) = Some c -> is_blank c = false).
+Proof.
+  intros bs n Hn. pose proof (schema_len_positive_always bs n Hn) as Hpos.
+  split; [exact Hpos|]. revert Hn. unfold schema_len.
+  destruct (scan true bs) as [evs o].
+  destruct (length_loop (N.of_nat (length bs)) (drop_leading_newlines evs) 0) as [raw stopped].
   pose proof (len_prefix_gen bs (N.to_nat raw)) as Hg. cbn zeta in Hg.
   assert (Hk : (if (N.of_nat (length bs) <? raw)%N then VPanic
-                else VLen (N.of_nat (length (trim_blank_rev (frev (firstn (N.to_nat raw) bs)))))) = VLen n ->
+                else if (N.of_nat (length (trim_blank_rev (frev (firstn (N.to_nat raw) bs)))) =? 0)%N
+                     then VErr code_empty_schema 0
+                     else VLen (N.of_nat (length (trim_blank_rev (frev (firstn (N.to_nat raw) bs)))))) = VLen n ->
                (N.to_nat n <= length bs)%nat /\
-               (forall c, nth_error bs (N.to_nat n - 1) = Some c -> (0 < n)%N -> is_blank c = false)).
-  { destruct (N.of_nat (length bs) <? raw)%N; [discriminate|]. intros H. inversion H; subst.
-    rewrite Nat2N.id. destruct Hg as [G1 G2]. split; [exact G1|]. intros c Hc Hp. apply G2; [exact Hc|lia]. }
+               (forall c, nth_error bs (N.to_nat n - 1) = Some c -> is_blank c = false)).
+  { destruct (N.of_nat (length bs) <? raw)%N; [discriminate|].
+    destruct (N.of_nat (length (trim_blank_rev (frev (firstn (N.to_nat raw) bs)))) =? 0)%N; [discriminate|].
+    intros H. inversion H; subst.
+    rewrite Nat2N.id in *. destruct Hg as [G1 G2]. split; [exact G1|]. intros c Hc. apply G2; [exact Hc|lia]. }
   destruct stopped; [exact Hk|]. destruct o; [exact Hk|discriminate|discriminate].
 Qed.
 
@@ -1958,496 +1990,9 @@ Proof.
 Qed.
 
 (* ================================================================== *)
-(* 8. Len is positive for a text that begins with a value              *)
+(* 8. kept for compatibility: positivity for a text that begins with a value (now a special case) *)
 (* ================================================================== *)
-(* a state function either leaves hasTrailingCharacters alone or queues no EndTop *)
-Definition HTr (htc0 : bool) (finds0 : list ev) (r : res sc) : Prop :=
-  match r with
-  | ROk s1 => s_htc s1 = htc0 \/ exists new, s_finds s1 = new ++ finds0 /\ ~ In EndTop new
-  | _ => True
-  end.
-Definition Kht (k : st -> sc -> res sc) : Prop := forall f s, HTr (s_htc s) (s_finds s) (k f s).
-
-Ltac pre_of l fin :=
-  lazymatch l with
-  | fin => constr:(@nil ev)
-  | ?x :: ?r => let t := pre_of r fin in constr:(x :: t)
-  end.
-
-Ltac ht_leaf Hk :=
-  unf2; cbn;
-  repeat match goal with
-  | |- context [match ?x with _ => _ end] =>
-    let d := inner x in (tryif is_var d then destruct d else destruct d eqn:?); cbn
-  end;
-  first [ exact I
-        | left; reflexivity
-        | lazymatch goal with
-          | |- _ \/ (exists new, ?l = new ++ ?fin /\ _) =>
-            let p := pre_of l fin in
-            right; exists p; split; [reflexivity|cbn; intuition discriminate]
-          end
-        | lazymatch goal with
-          | |- HTr ?h ?fin (?k ?f ?s') =>
-            let H := fresh in
-            pose proof (Hk f s') as H; cbn in H;
-            destruct (k f s') as [s1| |]; cbn in *; [|exact I|exact I];
-            destruct H as [H|[new [H1 H2]]]; [left; exact H|];
-            right;
-            lazymatch type of H1 with
-            | _ = new ++ ?l =>
-              let p := pre_of l fin in
-              exists (new ++ p); split; [rewrite H1, <- app_assoc; reflexivity|];
-              intros Hin; apply in_app_or in Hin; destruct Hin as [Hin|Hin];
-              [exact (H2 Hin)|cbn in Hin; intuition discriminate]
-            end
-          end ].
-
-Lemma after_ht c k t s : Kht k -> HTr (s_htc s) (s_finds s) (end_value_switch c k t s).
-Proof.
-  intros Hk. dsc s. cbn. destruct t; unfold end_value_switch; try exact I;
-    unfall; unf; repeat execP1; ht_leaf Hk.
-Qed.
-
-Lemma end_value_ht c k s : Kht k -> HTr (s_htc s) (s_finds s) (st_end_value c k s).
-Proof.
-  intros Hk. unfold st_end_value.
-  destruct (s_stk s) as [|[t0 b0] rest] eqn:Es.
-  - dsc s. cbn in Es. subst. unfall. unf. repeat execP1; ht_leaf Hk.
-  - destruct (ev_eqb t0 LiteralBegin).
-    + destruct rest as [|[t1 b1] rest].
-      * dsc s. cbn in Es. subst. unfall. unf. repeat execP1; ht_leaf Hk.
-      * pose proof (after_ht c k t1 (found LiteralEnd s) Hk) as H.
-        destruct (end_value_switch c k t1 (found LiteralEnd s)) as [s1| |]; cbn in *; try exact I.
-        replace (s_htc (found LiteralEnd s)) with (s_htc s) in H by (destruct s; reflexivity).
-        replace (s_finds (found LiteralEnd s)) with (LiteralEnd :: s_finds s) in H by (destruct s; reflexivity).
-        destruct H as [H|[new [H1 H2]]]; [left; exact H|]. right.
-        exists (new ++ [LiteralEnd]). split; [rewrite H1, <- app_assoc; reflexivity|].
-        intros Hin. apply in_app_or in Hin. destruct Hin as [Hin|Hin]; [exact (H2 Hin)|].
-        cbn in Hin. intuition discriminate.
-    + apply after_ht. exact Hk.
-Qed.
-
-Lemma dispatch_ht c la k f s : Kht k -> HTr (s_htc s) (s_finds s) (dispatch c la k f s).
-Proof.
-  intros Hk.
-  destruct f; lazy beta iota delta [dispatch];
-    unfold st_1, st_0, st_dot0, st_key_shortcut, st_in_annotation_object_key,
-      st_in_annotation_object_key_after, st_types_shortcut_schema_name, st_types_shortcut_before_pipe;
-    (dsc s; unfall; unf; repeat execP1;
-     rewrite ?root_brace by assumption;
-     first [ ht_leaf Hk | exact (end_value_ht _ _ _ Hk) ]).
-Qed.
-
-Lemma call_ht c la : forall n, Kht (call n c la).
-Proof.
-  induction n as [|n IH]; intros f s; [exact I|]. rewrite call_S. apply dispatch_ht. exact IH.
-Qed.
-
-Lemma call_endtop_htc c la n f s s1 : s_finds s = [] -> call n c la f s = ROk s1 ->
-  In EndTop (s_finds s1) -> s_htc s1 = s_htc s.
-Proof.
-  intros Hf Hc Hin. pose proof (call_ht c la n f s) as H. rewrite Hc in H. cbn in H.
-  destruct H as [H|[new [H1 H2]]]; [exact H|]. rewrite Hf, app_nil_r in H1. rewrite H1 in Hin.
-  contradiction.
-Qed.
-
-(* what an event contributes to the length computed by Length() *)
-Definition contrib (size : N) (e : lexev) : N :=
-  match e_type e with
-  | EndTop => if e_htc e then (e_end e - 1)%N else e_end e
-  | _ => if N.eqb (e_end e) size then e_end e else (e_end e + 1)%N
-  end.
-Definition goodev (p size : N) (e : lexev) : Prop := (p < contrib size e)%N.
-Definition isNLev (e : lexev) : Prop := e_type e = NewLine.
-
-Lemma contrib_ge p size t b e h : (p < size)%N -> t <> EndTop -> (p <= e)%N ->
-  goodev p size (mkev t b e h).
-Proof.
-  intros Hp Ht He. unfold goodev, contrib. cbn [e_type e_end e_htc].
-  destruct (N.eqb_spec e size); destruct t; try congruence; lia.
-Qed.
-
-Lemma process_found_good p size i pb htc stk e stk' x :
-  (p < size)%N -> (p + 1 <= i)%N ->
-  (forall y, pb = Some y -> ch y 32 = true -> (p + 2 <= i)%N) ->
-  (e = EndTop -> htc = true -> (p + 2 <= i)%N) ->
-  process_found i pb htc stk e = Some (stk', x) -> goodev p size x.
-Proof.
-  intros Hp Hi Hpb Het. unfold process_found.
-  destruct e; cbn [is_opening is_ann_begin]; intros H.
-  all: try (inversion H; subst; apply contrib_ge; [exact Hp|discriminate|lia]).
-  all: try (destruct stk as [|[q b] rest]; [discriminate H|];
-     destruct (nonscalar_pair q _);
-     [inversion H; subst; apply contrib_ge; [exact Hp|discriminate|lia]|];
-     destruct (scalar_pair q _); [|discriminate H]).
-  all: try (inversion H; subst; apply contrib_ge; [exact Hp|discriminate|lia]).
-  - (* MixedValueEnd *)
-    destruct pb as [y|]; [|discriminate H]. destruct (ch y 32) eqn:Ey.
-    + specialize (Hpb y eq_refl Ey). inversion H; subst. apply contrib_ge; [exact Hp|discriminate|lia].
-    + inversion H; subst. apply contrib_ge; [exact Hp|discriminate|lia].
-  - (* EndTop *)
-    inversion H; subst. unfold goodev, contrib. cbn [e_type e_end e_htc].
-    destruct htc; [specialize (Het eq_refl eq_refl); lia|lia].
-Qed.
-
-(* the accumulator (most recent first): only NewLine so far / then at least one good event *)
-Definition A1 (acc : list lexev) : Prop := Forall isNLev acc.
-Definition A2 (p size : N) (acc : list lexev) : Prop :=
-  exists l2 l1, acc = l2 ++ l1 /\ l2 <> [] /\ Forall (goodev p size) l2 /\ Forall isNLev l1.
-Lemma A2_cons p size x acc : goodev p size x -> A2 p size acc -> A2 p size (x :: acc).
-Proof.
-  intros Hx [l2 [l1 [-> [Hn [H2 H1]]]]]. exists (x :: l2), l1.
-  split; [reflexivity|]. split; [discriminate|]. split; [constructor; assumption|exact H1].
-Qed.
-Lemma A1_cons_A2 p size x acc : goodev p size x -> A1 acc -> A2 p size (x :: acc).
-Proof.
-  intros Hx H1. exists [x], acc. split; [reflexivity|]. split; [discriminate|].
-  split; [constructor; [exact Hx|constructor]|exact H1].
-Qed.
-
-Lemma process_finds_good p size i pb htc fs : forall stk acc stk' acc' ok,
-  (p < size)%N -> (p + 1 <= i)%N ->
-  (forall y, pb = Some y -> ch y 32 = true -> (p + 2 <= i)%N) ->
-  (In EndTop fs -> htc = true -> (p + 2 <= i)%N) ->
-  A2 p size acc ->
-  process_finds i pb htc stk fs acc = (stk', acc', ok) -> A2 p size acc'.
-Proof.
-  induction fs as [|e r IH]; intros stk acc stk' acc' ok Hp Hi Hpb Het Ha; cbn [process_finds].
-  - intros H. inversion H; subst. exact Ha.
-  - destruct (process_found i pb htc stk e) as [[stk1 x]|] eqn:E.
-    + apply IH; try assumption.
-      * intros Hin. apply Het. right. exact Hin.
-      * apply A2_cons; [|exact Ha].
-        apply (process_found_good p size i pb htc stk e stk1 x Hp Hi Hpb); [|exact E].
-        intros ->. apply Het. left. reflexivity.
-    + intros H. inversion H; subst. exact Ha.
-Qed.
-
-Definition cond1 (p idx : N) (pb : option byte) (s : sc) : Prop :=
-  (p + 1 <= idx)%N /\
-  (idx = (p + 1)%N ->
-   (exists cp, pb = Some cp /\ ch cp 32 = false) /\ s_htc s = false /\ is_comment (s_step s) = false).
-
-Lemma read_byte_good p size la c : forall fuel s idx pb acc,
-  (p < size)%N -> Good s -> s_finds s = [] -> cond1 p idx pb s -> A2 p size acc ->
-  1 <= fuel -> (is_comment (s_step s) = true -> 2 <= fuel) ->
-  A2 p size (fst (read_byte fuel s idx pb c la acc)).
-Proof.
-  induction fuel as [|fuel IH]; intros s idx pb acc Hp HG Hf [Hi Hc] Ha H1 H2; [lia|].
-  cbn [read_byte].
-  pose proof (call_ok c la s HG Hf) as H.
-  pose proof (call_endtop_htc c la call_fuel (s_step s) s) as Hh.
-  destruct (call call_fuel c la (s_step s) s) as [s1|code|] eqn:Ec; cbn [okresB] in H;
-    [|exact Ha|exact Ha].
-  specialize (Hh s1 Hf eq_refl).
-  destruct H as [HG0 Hd].
-  assert (Hgood : forall stk' acc' ok,
-            process_finds idx pb (s_htc s1) (s_stk s1) (frev (s_finds s1)) acc = (stk', acc', ok) ->
-            A2 p size acc').
-  { intros stk' acc' ok Ep.
-    apply (process_finds_good p size idx pb (s_htc s1) _ _ _ _ _ _ Hp Hi) in Ep; [exact Ep| | |exact Ha].
-    - intros y Hy Hsp. destruct (N.eq_dec idx (p + 1)) as [E|E]; [|lia].
-      destruct (Hc E) as [[cp [Hcp Hns]] _]. rewrite Hcp in Hy. inversion Hy; subst. congruence.
-    - intros Hin Ht. destruct (N.eq_dec idx (p + 1)) as [E|E]; [|lia].
-      destruct (Hc E) as [_ [Hhf _]]. rewrite frev_rev in Hin. apply in_rev in Hin.
-      rewrite (Hh Hin), Hhf in Ht. discriminate Ht. }
-  destruct Hd as [[Hb Hs]|[[Hb [Hs [Hfd [Hcf Hcm]]]]|[Hb [Hs [Hla Hcm]]]]]; rewrite Hb.
-  - destruct (process_finds idx pb (s_htc s1) (s_stk s1) (frev (s_finds s1)) acc) as [[stk' acc'] ok] eqn:Ep.
-    specialize (Hgood _ _ _ eq_refl). destruct ok; exact Hgood.
-  - rewrite Hfd. cbn [frev rev_append process_finds process_found].
-    assert (Hne : idx <> (p + 1)%N).
-    { intros E. destruct (Hc E) as [_ [_ Hnc]]. rewrite Hnc in Hcm. discriminate Hcm. }
-    apply IH; try assumption.
-    + split; [|destruct s1; cbn in *; split; [reflexivity|assumption]].
-      apply good0_drain; [exact HG0|]. intros v Hv. rewrite Hfd in Hv. cbn in Hv. inversion Hv. reflexivity.
-    + destruct s1; reflexivity.
-    + split; [exact Hi|]. intros E. contradiction.
-    + apply A2_cons; [|exact Ha]. apply contrib_ge; [exact Hp|discriminate|lia].
-    + specialize (H2 Hcm). lia.
-    + intros Hx. exfalso. destruct s1; cbn in *. rewrite (cframe_not_comment _ Hcf) in Hx. discriminate Hx.
-  - destruct (process_finds idx pb (s_htc s1) (s_stk s1) (frev (s_finds s1)) acc) as [[stk' acc'] ok] eqn:Ep.
-    specialize (Hgood _ _ _ eq_refl). destruct ok; exact Hgood.
-Qed.
-
-Lemma run_good_n p size m : forall bs s idx pb acc, length bs <= m -> (p < size)%N ->
-  Good s -> s_finds s = [] -> cond1 p idx pb s -> pb <> None -> A2 p size acc ->
-  A2 p size (r_acc (run s idx pb bs acc)).
-Proof.
-  induction m as [|m IH]; intros bs s idx pb acc Hm Hp HG Hf Hc Hpn Ha;
-    (destruct bs as [|c r]; cbn [run]; [exact Ha|cbn [length] in Hm; try lia]).
-  assert (H1 : 1 <= S (length (s_rts s))) by lia.
-  assert (H2 : is_comment (s_step s) = true -> 2 <= S (length (s_rts s))).
-  { intros Hx. destruct HG as [[v [_ [_ [_ [_ Hr]]]]] _].
-    pose proof (rts_ok_comment _ _ _ Hx Hr). lia. }
-  assert (Hpb : pb = None -> s_step s = FoundRootValue) by (intros E; contradiction).
-  pose proof (read_byte_ok r c (S (length (s_rts s))) s idx pb acc HG Hf Hpb H1 H2) as Hr.
-  pose proof (read_byte_good p size r c (S (length (s_rts s))) s idx pb acc Hp HG Hf Hc Ha H1 H2) as Hg.
-  unfold rb_ok in Hr.
-  destruct (read_byte (S (length (s_rts s))) s idx pb c r acc) as [acc' [s'|o]]; cbn [fst snd] in Hr, Hg.
-  - destruct Hr as [HG0 [Hf' [Hb' Hsk]]]. destruct Hc as [Hi _].
-    destruct (s_skip s') eqn:Es.
-    + specialize (Hsk eq_refl).
-      destruct r as [|x [|y r2]]; cbn [length] in Hsk, Hm; try lia.
-      destruct (good_skip_false s' HG0 Hf' Hb') as [G1 G2].
-      apply IH; [lia|exact Hp|exact G1|exact G2| |discriminate|exact Hg].
-      split; [lia|]. intros E. lia.
-    + apply IH; [lia|exact Hp|split; [exact HG0|split; assumption]|exact Hf'| |discriminate|exact Hg].
-      split; [lia|]. intros E. lia.
-  - unfold r_acc; cbn. exact Hg.
-Qed.
-
-(* ---- the blank prefix and the first byte of the value ---- *)
-Definition SRoot (s : sc) : Prop :=
-  Good s /\ s_finds s = [] /\ s_step s = FoundRootValue /\ s_htc s = false /\ s_ann s = ANone.
-
-Lemma blank_facts b : is_blank b = true -> ch b 47 = false /\ ch b 35 = false.
-Proof.
-  unfold is_blank, is_space, is_nl, ch. cbv zeta. intros H.
-  destruct (N.eqb_spec (bN b) 32) as [->|_]; [split; reflexivity|].
-  destruct (N.eqb_spec (bN b) 9) as [->|_]; [split; reflexivity|].
-  destruct (N.eqb_spec (bN b) 10) as [->|_]; [split; reflexivity|].
-  destruct (N.eqb_spec (bN b) 13) as [->|_]; [split; reflexivity|discriminate H].
-Qed.
-Lemma nonblank_facts c : is_blank c = false -> is_nl c = false /\ ch c 32 = false.
-Proof.
-  unfold is_blank, is_space, is_nl, ch. cbv zeta. intros H.
-  destruct (bN c =? 32)%N, (bN c =? 9)%N, (bN c =? 10)%N, (bN c =? 13)%N; cbn in *;
-    try discriminate H; split; reflexivity.
-Qed.
-
-Lemma root_blank_rb s n idx pb b la acc : SRoot s -> is_blank b = true ->
-  read_byte (S n) s idx pb b la acc =
-  (if is_nl b then mkev NewLine idx idx false :: acc else acc, inl s).
-Proof.
-  intros [HG [Hf [Hst [Hh Ha]]]] Hb. destruct (blank_facts b Hb) as [H47 H35].
-  destruct HG as [_ [Hbk Hsk]]. dsc s. cbn in Hf, Hst, Hh, Ha, Hbk, Hsk. subst.
-  cbn [read_byte s_step]. change call_fuel with 16. rewrite call_S. lazy beta iota delta [dispatch].
-  unfst. unf. rewrite H47, H35. unfold is_new_line. cbn [s_ann]. rewrite Hb.
-  destruct (is_nl b); reflexivity.
-Qed.
-
-Lemma run_prefix s rest : SRoot s -> forall pre idx pb acc, forallb is_blank pre = true -> A1 acc ->
-  exists pb' acc', run s idx pb (pre ++ rest) acc = run s (idx + N.of_nat (length pre))%N pb' rest acc' /\
-                   A1 acc'.
-Proof.
-  intros HS. induction pre as [|b pre IH]; intros idx pb acc Hb Ha.
-  - exists pb, acc. cbn [app length]. rewrite N.add_0_r. split; [reflexivity|exact Ha].
-  - cbn [forallb] in Hb. apply andb_prop in Hb. destruct Hb as [Hb1 Hb2].
-    cbn [app run]. rewrite (root_blank_rb s _ idx pb b (pre ++ rest) acc HS Hb1).
-    assert (Hsk : s_skip s = false) by (destruct HS as [[_ [_ Hk]] _]; exact Hk). rewrite Hsk.
-    destruct (IH (N.succ idx) (Some b) (if is_nl b then mkev NewLine idx idx false :: acc else acc) Hb2)
-      as [pb' [acc' [E1 E2]]].
-    { destruct (is_nl b); [constructor; [reflexivity|exact Ha]|exact Ha]. }
-    exists pb', acc'. split; [|exact E2]. rewrite E1. f_equal. cbn [length]. lia.
-Qed.
-
-Ltac pre_of_lex l fin :=
-  lazymatch l with
-  | fin => constr:(@nil lexev)
-  | ?x :: ?r => let t := pre_of_lex r fin in constr:(x :: t)
-  end.
-
-Definition is_err (o : outcome) : Prop := match o with Err _ _ => True | _ => False end.
-
-Lemma root_value_rb s n idx pb c la acc : SRoot s ->
-  is_blank c = false -> ch c 35 = false -> ch c 47 = false ->
-  match read_byte (S n) s idx pb c la acc with
-  | (acc', inl s') =>
-    (exists new, acc' = new ++ acc /\ new <> [] /\
-                 Forall (fun e => e_end e = idx /\ e_type e <> EndTop) new) /\
-    s_htc s' = false /\ is_comment (s_step s') = false /\ s_skip s' = false
-  | (acc', inr o) => acc' = acc /\ is_err o
-  end.
-Proof.
-  intros [HG [Hf [Hst [Hh Ha]]]] Hb H35 H47. destruct (nonblank_facts c Hb) as [Hnl _].
-  destruct HG as [_ [Hbk Hsk]]. dsc s. cbn in Hf, Hst, Hh, Ha, Hbk, Hsk. subst.
-  cbn [read_byte s_step]. change call_fuel with 16. rewrite call_S. lazy beta iota delta [dispatch].
-  unfst. unf. rewrite H47, H35. unfold is_new_line. cbn [s_ann]. rewrite Hnl, Hb.
-  repeat match goal with
-  | |- context [if ?b then _ else _] =>
-    lazymatch b with
-    | ch _ _ => destruct b eqn:?
-    | is_digit19 _ => destruct b eqn:?
-    end
-  end; unf2; cbn [frev rev_append process_finds process_found is_opening is_ann_begin];
-  try (split; [reflexivity|exact I]);
-  (split; [|repeat split; reflexivity];
-   lazymatch goal with
-   | |- exists new, ?l = new ++ ?fin /\ _ =>
-     let p := pre_of_lex l fin in
-     exists p; split; [reflexivity|split; [discriminate|repeat constructor; cbn; discriminate]]
-   end).
-Qed.
-
-(* ---- the end of input, the loop of Length(), the trimming ---- *)
-Lemma tail_good p size lastb : forall fuel s index acc,
-  (p < size)%N -> (size <= index)%N ->
-  (forall y, lastb = Some y -> ch y 32 = true -> (p + 2 <= size)%N) ->
-  A2 p size acc -> A2 p size (fst (tail fuel s index size lastb acc)).
-Proof.
-  induction fuel as [|fuel IH]; intros s index acc Hp Hi Hl Ha; cbn [tail]; [exact Ha|].
-  destruct (s_stk s) as [|[t b] rest] eqn:Es; [exact Ha|].
-  assert (Hpb : forall y, (if (index =? size)%N then lastb else None) = Some y -> ch y 32 = true ->
-                          (p + 2 <= index)%N).
-  { intros y Hy Hs. destruct (N.eqb_spec index size) as [->|_]; [exact (Hl y Hy Hs)|discriminate Hy]. }
-  assert (Hpf : forall e stk stk' x, e <> EndTop ->
-            process_found index (if (index =? size)%N then lastb else None) (s_htc s) stk e = Some (stk', x) ->
-            goodev p size x).
-  { intros e stk stk' x He E.
-    apply (process_found_good p size index (if (index =? size)%N then lastb else None) (s_htc s) stk e stk' x Hp); [lia|exact Hpb| |exact E].
-    intros ->. congruence. }
-  destruct t; try exact Ha.
-  - destruct (ev_eqb LiteralBegin LiteralBegin && s_unf s)%bool; [exact Ha|].
-    destruct (process_found _ _ _ _ _) as [[stk' x]|] eqn:E; [|exact Ha].
-    apply IH; [exact Hp|lia|exact Hl|]. apply A2_cons; [|exact Ha].
-    eapply Hpf; [|exact E]; discriminate.
-  - destruct (ev_eqb InlineAnnotationBegin LiteralBegin && s_unf s)%bool; [exact Ha|].
-    destruct (process_found _ _ _ _ _) as [[stk' x]|] eqn:E; [|exact Ha].
-    apply IH; [exact Hp|lia|exact Hl|]. apply A2_cons; [|exact Ha].
-    eapply Hpf; [|exact E]; discriminate.
-  - destruct (ev_eqb InlineAnnotationTextBegin LiteralBegin && s_unf s)%bool; [exact Ha|].
-    destruct (process_found _ _ _ _ _) as [[stk' x]|] eqn:E; [|exact Ha].
-    apply IH; [exact Hp|lia|exact Hl|]. apply A2_cons; [|exact Ha].
-    eapply Hpf; [|exact E]; discriminate.
-  - destruct (s_unf s); [exact Ha|].
-    destruct (process_found _ _ _ _ TypesShortcutEnd) as [[stk1 x1]|] eqn:E1; [|exact Ha].
-    assert (G1 : goodev p size x1) by (eapply Hpf; [|exact E1]; discriminate).
-    destruct (process_found _ _ _ _ MixedValueEnd) as [[stk2 x2]|] eqn:E2.
-    + apply IH; [exact Hp|lia|exact Hl|]. apply A2_cons; [|apply A2_cons; [exact G1|exact Ha]].
-      eapply Hpf; [|exact E2]; discriminate.
-    + cbn [fst]. apply A2_cons; [exact G1|exact Ha].
-Qed.
-
-Lemma ll_nl size : forall l m len, Forall isNLev l ->
-  exists len', length_loop size (l ++ m) len = length_loop size m len'.
-Proof.
-  induction l as [|e l IH]; intros m len Hl; cbn [app length_loop].
-  - exists len. reflexivity.
-  - inversion Hl as [|? ? He Hr]; subst. unfold isNLev in He. rewrite He. apply IH. exact Hr.
-Qed.
-Lemma ll_nl_only size : forall l len, Forall isNLev l -> snd (length_loop size l len) = false.
-Proof.
-  induction l as [|e l IH]; intros len Hl; cbn [length_loop]; [reflexivity|].
-  inversion Hl as [|? ? He Hr]; subst. unfold isNLev in He. rewrite He. apply IH. exact Hr.
-Qed.
-Lemma ll_good p size : forall l len, Forall (goodev p size) l -> (l = [] -> (p < len)%N) ->
-  (p < fst (length_loop size l len))%N.
-Proof.
-  induction l as [|e l IH]; intros len Hl Hn; cbn [length_loop]; [apply Hn; reflexivity|].
-  inversion Hl as [|? ? He Hr]; subst. unfold goodev, contrib in He.
-  destruct (e_type e); try (apply IH; [exact Hr|intros _; exact He]).
-  cbn [fst]. exact He.
-Qed.
-
-Lemma raw_gt p size acc : A2 p size acc -> (p < fst (length_loop size (frev acc) 0))%N.
-Proof.
-  intros [l2 [l1 [-> [Hn [H2 H1]]]]]. rewrite frev_rev, rev_app_distr.
-  destruct (ll_nl size (rev l1) (rev l2) 0%N (Forall_rev H1)) as [len' ->].
-  apply ll_good; [apply Forall_rev; exact H2|].
-  intros E. exfalso. apply Hn. rewrite <- (rev_involutive l2), E. reflexivity.
-Qed.
-
-Lemma trim_nil l : trim_blank_rev l = [] -> forallb is_blank l = true.
-Proof.
-  induction l as [|x l IH]; cbn [trim_blank_rev forallb]; [reflexivity|].
-  destruct (is_blank x); [cbn [andb]; exact IH|discriminate].
-Qed.
-
-Lemma trimmed_positive (bs : bytes) (k : nat) (j : nat) c :
-  nth_error bs j = Some c -> is_blank c = false -> j < k ->
-  0 < length (trim_blank_rev (frev (firstn k bs))).
-Proof.
-  intros Hn Hc Hj.
-  destruct (trim_blank_rev (frev (firstn k bs))) as [|x t] eqn:E; [|cbn [length]; lia].
-  exfalso. apply trim_nil in E. rewrite frev_rev in E.
-  assert (Hin : In c (rev (firstn k bs))).
-  { apply -> in_rev. apply nth_error_In with (n := j).
-    rewrite <- (firstn_skipn k bs) in Hn.
-    assert (Hlen : j < length bs) by (apply nth_error_Some; rewrite (firstn_skipn k bs) in Hn; congruence).
-    rewrite nth_error_app1 in Hn; [exact Hn|]. rewrite firstn_length. lia. }
-  rewrite forallb_forall in E. rewrite (E c Hin) in Hc. discriminate Hc.
-Qed.
-
-Lemma last_byte_snoc l x : forall d, last_byte (l ++ [x]) d = Some x.
-Proof. induction l as [|y l IH]; intros d; cbn [app last_byte]; [reflexivity|apply IH]. Qed.
-
-Lemma goodev_at p size e : (p < size)%N -> e_end e = p -> e_type e <> EndTop -> goodev p size e.
-Proof.
-  intros Hp He Ht. unfold goodev, contrib. rewrite He.
-  destruct (N.eqb_spec p size); [lia|]. destruct (e_type e); try congruence; lia.
-Qed.
-
-(* P4, positivity: for a text whose first non-blank byte is neither '#' nor '/' (the text begins with
-   a value), what Len returns is positive *)
 Theorem schema_len_positive : forall pre c r n,
   forallb is_blank pre = true -> is_blank c = false -> ch c 35 = false -> ch c 47 = false ->
   schema_len (pre ++ c :: r) = VLen n -> (0 < n)%N.
-Proof.
-  intros pre c r n Hpre Hc H35 H47 H.
-  set (bs := pre ++ c :: r) in *. set (p := N.of_nat (length pre)).
-  set (size := N.of_nat (length bs)) in *.
-  assert (Hp : (p < size)%N).
-  { unfold p, size, bs. rewrite app_length. cbn [length]. lia. }
-  assert (Hnth : nth_error bs (length pre) = Some c).
-  { unfold bs. rewrite nth_error_app2 by lia. rewrite Nat.sub_diag. reflexivity. }
-  assert (Hlast : forall y, last_byte bs None = Some y -> ch y 32 = true -> (p + 2 <= size)%N).
-  { intros y Hy Hs. destruct r as [|r0 r1].
-    - unfold bs in Hy. rewrite last_byte_snoc in Hy. inversion Hy; subst y.
-      destruct (nonblank_facts c Hc) as [_ Hns]. congruence.
-    - unfold p, size, bs. rewrite app_length. cbn [length]. lia. }
-  assert (Hfin : forall acc, A2 p size acc ->
-     forall stopped raw, length_loop size (frev acc) 0 = (raw, stopped) ->
-     (if (size <? raw)%N then VPanic
-      else VLen (N.of_nat (length (trim_blank_rev (frev (firstn (N.to_nat raw) bs)))))) = VLen n ->
-     (0 < n)%N).
-  { intros acc Ha stopped raw El Hv. pose proof (raw_gt p size acc Ha) as Hr. rewrite El in Hr. cbn [fst] in Hr.
-    destruct (size <? raw)%N; [discriminate Hv|]. inversion Hv; subst n.
-    pose proof (trimmed_positive bs (N.to_nat raw) (length pre) c Hnth Hc) as Ht.
-    assert (Hlt : length pre < N.to_nat raw) by (unfold p in Hr; lia). specialize (Ht Hlt). lia. }
-  unfold schema_len, scan in H. fold size in H.
-  assert (HS : SRoot (new_scanner true)).
-  { split; [apply good_new|]. repeat split; reflexivity. }
-  destruct (run_prefix (new_scanner true) (c :: r) HS pre 0%N None [] Hpre (Forall_nil _))
-    as [pb' [acc1 [Er A1acc]]].
-  fold bs in Er. rewrite Er in H. rewrite N.add_0_l in H. fold p in H.
-  cbn [run] in H.
-  pose proof (root_value_rb (new_scanner true) (length (s_rts (new_scanner true))) p pb' c r acc1
-                HS Hc H35 H47) as Hv.
-  assert (Hpbn : pb' = None -> s_step (new_scanner true) = FoundRootValue) by reflexivity.
-  pose proof (read_byte_ok r c (S (length (s_rts (new_scanner true)))) (new_scanner true) p pb' acc1
-                (good_new true) eq_refl Hpbn (le_n_S _ _ (Nat.le_0_l _)) ltac:(discriminate)) as Hrb.
-  unfold rb_ok in Hrb.
-  destruct (read_byte (S (length (s_rts (new_scanner true)))) (new_scanner true) p pb' c r acc1)
-    as [acc2 [s'|o]]; cbn [snd] in Hrb.
-  - destruct Hv as [[new [Eacc [Hne Hnew]]] [Hh [Hcm Hsk]]]. rewrite Hsk in H.
-    destruct Hrb as [HG0 [Hf' [Hb' _]]].
-    assert (HA2 : A2 p size acc2).
-    { exists new, acc1. split; [exact Eacc|]. split; [exact Hne|]. split; [|exact A1acc].
-      eapply Forall_impl; [|exact Hnew]. intros e [He1 He2]. apply goodev_at; assumption. }
-    assert (HG' : Good s') by (split; [exact HG0|split; assumption]).
-    assert (Hc1 : cond1 p (N.succ p) (Some c) s').
-    { split; [lia|]. intros _. split; [|split; assumption].
-      exists c. split; [reflexivity|]. apply (nonblank_facts c Hc). }
-    pose proof (run_good_n p size (length r) r s' (N.succ p) (Some c) acc2 (le_n _) Hp HG' Hf' Hc1
-                  ltac:(discriminate) HA2) as Hrun.
-    destruct (run s' (N.succ p) (Some c) r acc2) as [[[accF o] sF] pbF].
-    unfold r_acc in Hrun. cbn [fst] in Hrun.
-    destruct o.
-    + pose proof (tail_good p size (last_byte bs None) (S (length (s_stk sF))) sF size accF Hp
-                    (N.le_refl _) Hlast Hrun) as Ht.
-      destruct (tail (S (length (s_stk sF))) sF size size (last_byte bs None) accF) as [acc' o'].
-      cbn [fst] in Ht.
-      destruct (length_loop size (frev acc') 0) as [raw stopped] eqn:El.
-      destruct stopped; [exact (Hfin acc' Ht _ _ El H)|].
-      destruct o'; [exact (Hfin acc' Ht _ _ El H)|discriminate H|discriminate H].
-    + destruct (length_loop size (frev accF) 0) as [raw stopped] eqn:El.
-      destruct stopped; [exact (Hfin accF Hrun _ _ El H)|discriminate H].
-    + destruct (length_loop size (frev accF) 0) as [raw stopped] eqn:El.
-      destruct stopped; [exact (Hfin accF Hrun _ _ El H)|discriminate H].
-  - destruct Hv as [-> Ho]. destruct o; try (exfalso; exact Ho).
-    pose proof (ll_nl_only size (frev acc1) 0%N) as Hs. rewrite frev_rev in Hs.
-    specialize (Hs (Forall_rev A1acc)). rewrite <- frev_rev in Hs.
-    destruct (length_loop size (frev acc1) 0) as [raw stopped]. cbn [snd] in Hs. subst stopped.
-    discriminate H.
-Qed.
+Proof. intros pre c r n _ _ _ _ H. exact (schema_len_positive_always _ _ H). Qed.
